@@ -149,6 +149,21 @@ extra8 = {
 for k, v in extra8.items():
     checks[k]["text"] += v
 
+# ---- round 9 ----
+extra9 = {
+ "C02": " Round 9: recursion whose function bodies are a lone return statement (the probe sits inside the returned expression).",
+ "C04": " Round 9: a C-for whose condition is a call of the payload function after an init clause that shadows a pool name (a failing condition must leave the enclosing try in the scope that was current before the loop).",
+ "C09": " Round 9: try-rethrow wrapper (catch e { p; throw e }), and a recursive function with two defers per invocation called two / three times.",
+ "C10": " Round 9: lists of lists appended to a window of a typed slice of slices (fitting, and failing after a convertible sub-list), a parameter read from a typed slot.",
+ "C11": " Round 9: the twin types of part E carry the same field names in different order (reads, and writes through pointers); free-running -race body: Go calls one converted script callback from two goroutines (five func types)." + RACE,
+ "C12": " Round 9: the module named m is re-bound through a non-addressable value of kind Interface (as a script can leave it).",
+ "C14": " Round 9: the parked deep runs share one *vm.Options value.",
+ "C16": " Round 9: a named scalar element type (Dur = time.Duration) in three facts, go arguments read from typed slots / struct fields (all schedules), a 30 s guard around the plain-entry runs.",
+}
+for k, v in extra9.items():
+    checks[k]["text"] += v
+checks["C11"]["technique"] += "; supplementary free-running race-detector pass over the same harness bodies (sampling, reported separately)"
+
 for pid in sorted(checks):
     c = checks[pid]
     m["checks"].append({
